@@ -68,7 +68,8 @@ func (g *Gen) bufOf(st *State, a Val, old bool) Val {
 		hs = g.entryHs
 	}
 	l := fmt.Sprintf("(select %s %s)", g.bufLenArr(st, old), r)
-	return Val{T: fmt.Sprintf("(select %s %s)", hs, r), Len: l, Off: "0", Kind: "slice"}
+	g.assume(st, fmt.Sprintf("(and (<= 0 %s) (<= %s %s))", l, l, maxLen))
+	return Val{T: fmt.Sprintf("(select %s %s)", hs, r), Len: l, Off: "0", Kind: "slice", Obj: r}
 }
 
 func (g *Gen) bufLen(st *State, r string) string {
@@ -78,6 +79,7 @@ func (g *Gen) bufLen(st *State, r string) string {
 }
 
 func (g *Gen) bufSetLen(st *State, r, l string) {
+	g.assume(st, fmt.Sprintf("(<= %s %s)", l, maxLen)) // a buffer never outgrows the address space (DESIGN 8.3)
 	st.heap[bufLenKey] = g.def("H", "(Array Int Int)", fmt.Sprintf("(store %s %s %s)", g.bufLenArr(st, false), r, l))
 }
 
